@@ -172,6 +172,13 @@ def run(tier, rep):
             b[p // 8] ^= 0x80 >> (p % 8)
         return bytes(b)
 
+    for fr in frames + [big]:
+        # a reader sees the intact frame first and damaged copies later: parse it (validation on)
+        try:
+            RTCMReader.parse(fr, validate=1)
+            RTCMReader.parse(fr, validate=1, labelmsm=2)
+        except BaseException:  # pylint: disable=broad-except
+            pass
     for fr in frames:
         nb = len(fr) * 8
         for p in range(nb):                                   # every 1-bit error
